@@ -245,6 +245,110 @@ func (p *jsp) dblLex(bits uint64) string {
 	return strconv.FormatFloat(f, 'g', -1, 64)
 }
 
+// a number lexeme covering the RFC 8259 grammar: [-] (0 | [1-9][0-9]*) [. [0-9]+] [(e|E) [+|-] [0-9]+]
+func (p *jsp) anyNumber() string {
+	r := p.r
+	s := ""
+	if r.chance(40) {
+		s = "-"
+	}
+	switch r.intn(4) {
+	case 0:
+		s += "0"
+	case 1:
+		s += string(rune('1' + r.intn(9)))
+	default:
+		s += string(rune('1' + r.intn(9)))
+		for k := r.intn(18); k > 0; k-- {
+			s += string(rune('0' + r.intn(10)))
+		}
+	}
+	if r.chance(50) {
+		s += "."
+		for k := 1 + r.intn(6); k > 0; k-- {
+			s += string(rune('0' + r.intn(10)))
+		}
+	}
+	if r.chance(60) {
+		s += []string{"e", "E"}[r.intn(2)] + []string{"", "+", "-"}[r.intn(3)]
+		switch r.intn(4) {
+		case 0:
+			s += "0"
+		case 1:
+			s += "00" + strconv.Itoa(r.intn(30))
+		default:
+			s += strconv.Itoa(r.intn(310))
+		}
+	}
+	return s
+}
+
+// a string literal spelled with every kind of escape
+func (p *jsp) anyString(b []byte) []byte {
+	r := p.r
+	b = append(b, '"')
+	for k := r.intn(10); k > 0; k-- {
+		switch r.intn(14) {
+		case 0:
+			b = append(b, `\"`...)
+		case 1:
+			b = append(b, `\\`...)
+		case 2:
+			b = append(b, `\/`...)
+		case 3:
+			b = append(b, []string{`\b`, `\f`, `\n`, `\r`, `\t`}[r.intn(5)]...)
+		case 4:
+			b = append(b, fmt.Sprintf([]string{"\\u%04x", "\\u%04X"}[r.intn(2)], []int{0, 0x1f, 0x22, 0x5c, 0x7f, 0x80, 0x7ff, 0x800, 0x2028, 0xd7ff, 0xe000, 0xffff}[r.intn(12)])...)
+		case 5:
+			c := []int{0x10000, 0x1f600, 0x10ffff}[r.intn(3)] - 0x10000
+			b = append(b, fmt.Sprintf([]string{"\\u%04x\\u%04x", "\\u%04X\\u%04X"}[r.intn(2)], 0xd800+(c>>10), 0xdc00+(c&0x3ff))...)
+		case 6:
+			b = append(b, []string{"\u00e9", "\u4e2d", "\U0001f600", "\u2029", "\x7f"}[r.intn(5)]...)
+		case 7:
+			b = append(b, []string{"{", "}", "[", "]", ":", ",", "null", "true", "1e-7", "'"}[r.intn(10)]...)
+		default:
+			b = append(b, "abcxyz 0189_-"[r.intn(13)])
+		}
+	}
+	return append(b, '"')
+}
+
+func (p *jsp) anyJSON(b []byte, depth int) []byte {
+	r := p.r
+	k := r.intn(10)
+	if depth >= 3 && k >= 7 {
+		k = r.intn(7)
+	}
+	switch k {
+	case 0, 1, 2, 3:
+		return append(b, p.anyNumber()...)
+	case 4, 5:
+		return p.anyString(b)
+	case 6:
+		return append(b, []string{"true", "false", "null"}[r.intn(3)]...)
+	case 7, 8:
+		b = append(b, '[')
+		for i, n := 0, r.intn(4); i < n; i++ {
+			if i > 0 {
+				b = append(p.sp(b), ',')
+			}
+			b = p.anyJSON(p.sp(b), depth+1)
+		}
+		return append(p.sp(b), ']')
+	default:
+		b = append(b, '{')
+		for i, n := 0, r.intn(4); i < n; i++ {
+			if i > 0 {
+				b = append(p.sp(b), ',')
+			}
+			b = p.anyString(p.sp(b))
+			b = append(p.sp(b), ':')
+			b = p.anyJSON(p.sp(b), depth+1)
+		}
+		return append(p.sp(b), '}')
+	}
+}
+
 var c18Snippets = []struct {
 	kind int // 1 bool 2 num 3 str 4 arr 5 obj
 	s    string
@@ -290,6 +394,9 @@ func (p *jsp) value(b []byte, v *Val) []byte {
 		}
 		return append(b, p.intLex(v.I)...)
 	case thrift.DOUBLE:
+		if p.num > 0 && p.r.chance(12) { // any number of the grammar (the value is whatever the lexeme denotes: the model reads the document)
+			return append(b, p.anyNumber()...)
+		}
 		if p.strInts && p.r.chance(30) {
 			return append(append(append(b, '"'), p.dblLex(v.D)...), '"')
 		}
@@ -354,6 +461,9 @@ func (p *jsp) value(b []byte, v *Val) []byte {
 				s := c18Snippets[p.r.intn(len(c18Snippets))].s
 				if p.r.chance(15) {
 					s = "null"
+				} else if p.r.chance(65) {
+					// any JSON value: the skipped member sweeps the whole RFC 8259 grammar (numbers, escapes, literals, nesting)
+					s = string(p.anyJSON(nil, 0))
 				}
 				member([]byte(name), func(b []byte) []byte { return append(b, s...) })
 			}
